@@ -179,6 +179,17 @@ func getKeysNode(c *ssa.CallCommon) ssa.Value {
 }
 
 func runC03(w *World, r *Report) {
+	runC03Sites(w, r)
+	ruleStepArgs(w, r, ruleStepRes(w, r, "(*Expr).Eval"))
+	ruleScFlags(w, r)
+	ruleScClimb(w, r)
+	ruleFastLayout(w, r)
+	ruleKwType(w, r)
+	rulePairBool(w, r)
+}
+
+// runC03Sites: where fetches and operator calls can occur in Eval (also run under C11).
+func runC03Sites(w *World, r *Report) {
 	const rule = "R-CALLSITES"
 	r.Rule(rule, "every Get and every operator call in Eval sits in the arm of the main loop that the semantics assigns it, on the node(s) of the current step, with exclusive arms and no inner loop", 6)
 	fn := w.MustFn(r, rule, "(*Expr).Eval")
@@ -289,12 +300,6 @@ func runC03(w *World, r *Report) {
 	ruleFastOrder(w, r, l, gets, opCalls, kindsOfCurt, k)
 	ruleCondJump(w, r, l, opCalls, kindsOfCurt, k)
 	ruleScJump(w, r, l)
-	ruleStepArgs(w, r, ruleStepRes(w, r, "(*Expr).Eval"))
-	ruleScFlags(w, r)
-	ruleScClimb(w, r)
-	ruleFastLayout(w, r)
-	ruleKwType(w, r)
-	rulePairBool(w, r)
 }
 
 func ruleFastOrder(w *World, r *Report, l *evalLoop, gets map[string][]*ssa.Call, opCalls []*ssa.Call, kindsOfCurt func(*ssa.BasicBlock) map[int64]bool, k nodeKinds) {
